@@ -120,7 +120,74 @@ def attemptMatches (t : Target) (fields : List String) : Bool :=
       && sni == hexStr (sniSent t.sni) && host == hexStr t.host
   | _ => false
 
+/-! ### the policy op: real clients with allow / deny lists (network documented in harness/area_resolve.go) -/
+
+def polHosts : List (Cidr.Str × List Cidr.Str) := [
+  ("h1.example.com".toList, ["127.16.1.1".toList]), ("h2.example.com".toList, ["127.16.1.2".toList]),
+  ("h3.example.com".toList, ["127.16.2.1".toList]), ("h6.example.com".toList, ["::1".toList]),
+  ("hh.example.com".toList, ["127.16.1.1".toList, "127.16.2.1".toList])]
+
+def polWAddrs : List Cidr.Str := ["127.16.1.1".toList, "127.16.1.2".toList, "127.16.2.1".toList]
+
+/-- `host=kind,…`, kind = n | s<hx m.server> | r<hx host> -/
+def parsePolScript (s : String) : Option (List (Cidr.Str × Policy.WkDoc)) :=
+  if s == "." then some [] else
+  (s.splitOn ",").mapM (fun e => match e.splitOn "=" with
+    | [h, k] =>
+      if k == "n" then some (h.toList, Policy.WkDoc.none)
+      else if k.startsWith "s" then (unhexStr (k.drop 1).toString).map (fun d => (h.toList, Policy.WkDoc.server d))
+      else if k.startsWith "r" then (unhexStr (k.drop 1).toString).map (fun d => (h.toList, Policy.WkDoc.redirect d))
+      else none
+    | _ => none)
+
+def polNet (wk : List (Cidr.Str × Policy.WkDoc)) : Policy.Net :=
+  { addrs := fun h => (polHosts.lookup h).getD [],
+    -- F (symbolic port 5) listens on 0.0.0.0, G (6) on ::1, W (443) on three addresses; nothing on 8448
+    listening := fun ip port =>
+      if port == "5".toList then !ip.contains ':'
+      else if port == "6".toList then ip == "::1".toList
+      else if port == "443".toList then polWAddrs.contains ip
+      else false,
+    wkDoc := fun h => (wk.lookup h).getD .none }
+
+def parsePolList (s : String) : Option (List Cidr.Str) :=
+  if s == "-" then some [] else (s.splitOn ",").mapM unhexStr
+
+def parsePolConfig (opts al dl cl : String) : Option Policy.Config :=
+  match parsePolList al, parsePolList dl with
+  | some allow, some deny =>
+    let (ca, cd) : List Cidr.Str × List Cidr.Str :=
+      if cl == "open" then (["0.0.0.0/0".toList, "::/0".toList], [])
+      else if cl == "nil" then ([], [])
+      else (allow, deny)
+    some { wellKnown := opts.contains 'w', cache := opts.contains 'c', allow := allow, deny := deny, cacheAllow := ca, cacheDeny := cd }
+  | _, _ => none
+
+def polSym (port : Cidr.Str) : String :=
+  if port == "5".toList then "F" else if port == "6".toList then "G" else if port == "443".toList then "W" else String.ofList port
+
+def sortDedup (xs : List String) : List String :=
+  (xs.mergeSort (fun a b => !(b < a))).foldr (fun x acc => if acc.head? == some x then acc else x :: acc) []
+
+def showOutcome (o : Policy.Outcome) : String :=
+  "arr:" ++ ",".intercalate (sortDedup (o.arrivals.map (fun a => String.ofList a.1 ++ "/" ++ polSym a.2))) ++ (if o.ok then "|ok" else "|err")
+
+/-- C16 on one address: in no denied range and in at least one allowed range (Cidr.Spec.permitted) -/
+def specPermits (allow deny : List Cidr.Str) (ip : Cidr.Str) : Bool :=
+  match Cidr.parseIP ip with
+  | some a => decide (Cidr.Spec.permitted (Cidr.normalise a) (allow.map Cidr.parseCIDR) (deny.map Cidr.parseCIDR))
+  | none => false
+
 /-- ops:
+    policy <opts> <allow> <deny> <cache lists> <hx server name> <well-known script>
+       -> arr:<sorted set of <address>/<F|G|W> a connection was accepted on>|ok or |err
+    policy_forbidden <args of policy>
+       -> forbidden:<the arrivals on addresses that do NOT lie in no denied range and in at least one allowed range of the
+          client's lists (when it has any) and of its DNS cache's lists (when it has one)>
+       The harness runs the scenario again and classifies the arrivals with net.ParseCIDR / IPNet.Contains; the model stream
+       is the model's prediction classified with Cidr.Spec.permitted; the SPECIFICATION stream is the constant `forbidden:` —
+       no connection is ever made to such an address, by whatever name or path (federation request, DNS cache, well-known
+       fetch, redirect) it was reached.
     roundtrip <hx name> <wk of name> <srv script> [<k>]
        -> rt:<attempts;…>|ok/err|wk=<well-known lookups>#<the same for a second request, which sees the resolution cache>
     roundtrip_props <args of roundtrip> <hex of the implementation's outcome>  — implementation outcome is the constant
@@ -150,6 +217,19 @@ def handle (op : String) (args : Array String) : Option String :=
                  | some k => if (Spec.direct name k).isNone then [name] else []
                  | none => [])
       some (m ++ "\t" ++ s)
+    | _, _, _ => some "bad-op"
+  | "policy", [opts, al, dl, cl, n, script] =>
+    match parsePolConfig opts al dl cl, unhexStr n, parsePolScript script with
+    | some c, some name, some wk => some (showOutcome (Policy.request c (polNet wk) name))
+    | _, _, _ => some "bad-op"
+  | "policy_forbidden", [opts, al, dl, cl, n, script] =>
+    match parsePolConfig opts al dl cl, unhexStr n, parsePolScript script with
+    | some c, some name, some wk =>
+      let o := Policy.request c (polNet wk) name
+      let bad := o.arrivals.filter (fun a =>
+        !((c.allow.isEmpty && c.deny.isEmpty) || specPermits c.allow c.deny a.1) ||
+        (c.cache && !specPermits c.cacheAllow c.cacheDeny a.1))
+      some ("forbidden:" ++ ",".intercalate (sortDedup (bad.map (fun a => String.ofList a.1 ++ "/" ++ polSym a.2))) ++ "\tforbidden:")
     | _, _, _ => some "bad-op"
   | "roundtrip", n :: wk1 :: script :: rest =>
     match unhexStr n, parseWK wk1, parseScript script with
